@@ -119,7 +119,8 @@ class Builder:
             ids = tuple(d['ids'])
             from connectome import meta
             fname = f'{key}.ids' + ('' if not getattr(self, 'ids_by_value', True) else '[' + ','.join(map(str, ids)) + ']')
-            self.world.consts[fname] = ids
+            # `ids_list`: the ids function returns a (new, unsorted as given) list instead of a tuple
+            self.world.consts[fname] = list(ids) if d.get('ids_list') else ids
             idsf = self.world.fn(fname, params=[])
             if d.get('ids_impure'):
                 # an id listing that may change between calls (a directory scan)
